@@ -405,3 +405,71 @@ Section Client.
     | CPlainErr => CPlainErr | CCtxErr => CCtxErr | CPanic => CPanic
     end.
 End Client.
+
+(* ------------------------------------------------------------------ the temporal client with SEVERAL shards *)
+
+(* TemporalLogClient.GetAcceptedRoots: every shard's client is asked (in parallel); the results are
+   consumed in the order in which the shards ANSWER ([rs] is in that order); the first error ends
+   the call and nothing is returned with it; otherwise the union, each certificate once, in the
+   order of first appearance *)
+Definition add_new (seen l : list bytes) : list bytes :=
+  fold_left (fun acc r => if existsb (bytes_eqb r) acc then acc else acc ++ [r]) l seen.
+
+Fixpoint merge_roots (seen : list bytes) (rs : list (result (list bytes))) : result (list bytes) :=
+  match rs with
+  | [] => COk seen
+  | COk l :: rest => merge_roots (add_new seen l) rest
+  | CRspErr st b :: _ => CRspErr st b
+  | CPlainErr :: _ => CPlainErr
+  | CCtxErr :: _ => CCtxErr
+  | CPanic :: _ => CPanic
+  end.
+
+Definition temporal_get_roots (os : list (outcome (list (option bytes)))) : result (list bytes) :=
+  merge_roots [] (map get_roots os).
+
+(* a shard's interval [NotAfterStart, NotAfterLimit) in ns since the epoch; None = unbounded *)
+Definition interval : Type := (option Z * option Z)%type.
+
+(* one round of TemporalLogClient.IndexByDate: neither when.Before(lower) nor !when.Before(upper) *)
+Definition covers (iv : interval) (t : Z) : bool :=
+  match fst iv with Some lo => negb (t <? lo)%Z | None => true end &&
+  match snd iv with Some hi => (t <? hi)%Z | None => true end.
+
+(* TemporalLogClient.IndexByDate: the first shard whose interval holds the date *)
+Fixpoint index_by_date (ivs : list interval) (t : Z) : option nat :=
+  match ivs with
+  | [] => None
+  | iv :: rest => if covers iv t then Some 0%nat else option_map S (index_by_date rest t)
+  end.
+
+Section Sharded.
+  Variable key : Type.
+  Variable sig_ok : key -> bytes -> val -> bool.
+  Variable key_hash : key -> bytes.
+  Variable x509_of : list bytes -> option bytes.
+  Variable precert_of : list bytes -> option (bytes * bytes).
+  Variable parse_cert : bytes -> pclass.
+  Variable not_after : bytes -> Z.                        (* NotAfter of a certificate that parses, ns *)
+
+  (* TemporalLogClient.addChain over shards = (interval, the shard client's verifier): the chain
+     head must parse without any error, its NotAfter selects ONE shard, and the call is that
+     shard's addChainWithRetry - with that shard's key.  The first component is the shard the
+     requests go to (None: no request is made). *)
+  Definition temporal_add_chain_sharded (v : variant) (shards : list (interval * option key))
+             (chain : list bytes) (etype : N) (os : list (outcome sct_rsp)) : option nat * result sct :=
+    match chain with
+    | [] => (None, CPlainErr)
+    | c :: _ =>
+        match parse_cert c with
+        | POk =>
+            match index_by_date (map fst shards) (not_after c) with
+            | None => (None, CPlainErr)
+            | Some i =>
+                let verifier := match nth_error shards i with Some s => snd s | None => None end in
+                (Some i, add_chain key sig_ok key_hash x509_of precert_of v verifier chain etype os)
+            end
+        | _ => (None, CPlainErr)
+        end
+    end.
+End Sharded.
